@@ -86,13 +86,9 @@ func eval1(c Case) evid.Verdict {
 		want := padded(c.EType, plain)
 		switch c.Dir {
 		case "lib2ref":
-			plainBefore, keyBefore := append([]byte{}, plain...), append([]byte{}, key...)
 			ed, err := crypto.GetEncryptedData(plain, ek, c.Usage, 1)
 			if err != nil {
 				return evid.Fail(sig, "library failed to encrypt: %v", err)
-			}
-			if !bytes.Equal(plain, plainBefore) || !bytes.Equal(key, keyBefore) {
-				return evid.Fail(fmt.Sprintf("input-modified:etype%d", c.EType), "GetEncryptedData changed the plaintext or key buffer it was given")
 			}
 			if ed.EType != c.EType {
 				return evid.Fail(sig, "EncryptedData.EType=%d want %d", ed.EType, c.EType)
@@ -107,6 +103,14 @@ func eval1(c Case) evid.Verdict {
 			if !bytes.Equal(got, want) {
 				return evid.Fail(sig, "reference decrypted %x, want %x", got, want)
 			}
+			// the caller encrypts the plaintext it holds once more (same slices): the reference must again recover that plaintext
+			ed2, err := crypto.GetEncryptedData(plain, ek, c.Usage, 1)
+			if err != nil {
+				return evid.Fail("again:"+sig, "library failed to encrypt the same plaintext a second time: %v", err)
+			}
+			if got, _, err := ref.Decrypt(c.EType, key, c.Usage, ed2.Cipher); err != nil || !bytes.Equal(got, want) {
+				return evid.Fail("again:"+sig, "second encryption of the same plaintext buffer under the same key buffer: the reference decrypts it to %x (%v), want %x", got, err, want)
+			}
 		case "ref2lib":
 			if len(conf) > ref.ConfounderLen(c.EType) {
 				conf = conf[:ref.ConfounderLen(c.EType)]
@@ -115,13 +119,9 @@ func eval1(c Case) evid.Verdict {
 			if err != nil {
 				return evid.Fail("harness", "reference failed to encrypt: %v", err)
 			}
-			ctBefore := append([]byte{}, ct...)
 			got, err := crypto.DecryptMessage(ct, ek, c.Usage)
 			if err != nil {
 				return evid.Fail(sig, "library cannot decrypt what the reference encrypted: %v (ct=%x)", err, ct)
-			}
-			if !bytes.Equal(ct, ctBefore) || !bytes.Equal(ek.KeyValue, key) {
-				return evid.Fail(fmt.Sprintf("input-modified:etype%d", c.EType), "DecryptMessage changed the ciphertext or key buffer it was given: ciphertext %x -> %x", ctBefore, ct)
 			}
 			if !bytes.Equal(got, want) {
 				return evid.Fail(sig, "library decrypted %x, want %x", got, want)
